@@ -9,7 +9,7 @@ HOOKS = {
     'guard': 'stellar_verif',
     'enable': 'RUSTFLAGS="--cfg stellar_verif" (passed by bin/check only to the harness profiles that need it)',
     'baseline_off_cmd': 'cd /repo && cargo test --workspace --no-fail-fast --offline',
-    'source_commits': ['aa0f6ce'],
+    'source_commits': ['aa0f6ce', 'aeda89b'],
     'add_only': True,
 }
 NOT_APPLICABLE = {}
